@@ -2260,11 +2260,13 @@ def convert_mean_to_depthwise_conv(op, arch, nng):
         ofmq = op.ofm.quantization
         ifmq = op.ifm.quantization
 
-        # reduce_axis[i] is true if axis i should be reduced
+        # reduce_axis[i] is true if axis i should be reduced (negative axis values count from the last dimension)
         if axis.shape == []:
-            reduce_axis = [True if i == axis.values else False for i in range(dims)]
+            axis_values = [int(axis.values)]
         else:
-            reduce_axis = [True if i in axis.values else False for i in range(dims)]
+            axis_values = [int(ax) for ax in axis.values]
+        axis_values = [ax + dims if ax < 0 else ax for ax in axis_values]
+        reduce_axis = [True if i in axis_values else False for i in range(dims)]
 
         ifm_shape = inp.shape.copy()
         intermediate_shape = op.ofm.shape.copy()
